@@ -389,6 +389,36 @@ pub fn c12(args: &Args, log: &mut Log) {
         if e.generics != want {
             fails.push(json!({"kind": "dependencies", "reason": format!("type arguments reported as dependencies: {:?}, expected {:?}", e.generics, want)}));
         }
+        // the two spellings of one type (by name / inlined) describe the same values
+        if let (Ok(nt), Some(Ok(it))) = (&name_ty, &inline_ty) {
+            for (from, to, a, b) in [("name", "inline", nt, it), ("inline", "name", it, nt)] {
+                checked += 1;
+                match env.included(a, b, 3, 24) {
+                    Ok(None) => {}
+                    Ok(Some((w, f))) => fails.push(json!({"kind": "name-and-inline-differ", "value": w, "path": f.path,
+                        "reason": format!("a value of {from}() = {:?} is not a value of {to}() = {:?}: {}", e.name.as_ref().ok(), e.inline.as_ref().ok(), f.reason)})),
+                    Err(_) => {}
+                }
+            }
+        }
+        // arrays up to the documented limit are tuples of exactly that length, longer ones plain arrays
+        if e.family == "array" {
+            if let Some(n) = e.rust.rsplit(';').next().and_then(|x| x.trim().trim_end_matches(']').trim().parse::<usize>().ok()) {
+                for (label, ty) in &views {
+                    checked += 1;
+                    let ok = match ty {
+                        tsmodel::Ty::Tuple(items) => n <= 64 && items.len() == n,
+                        tsmodel::Ty::Array(_) => n > 64,
+                        tsmodel::Ty::Ref(name, args) if name == "Array" && args.len() == 1 => n > 64,
+                        _ => false,
+                    };
+                    if !ok {
+                        fails.push(json!({"kind": "array-length", "against": label,
+                            "reason": format!("{label}() of an array of {n} elements is not {}", if n <= 64 { format!("a tuple of {n} entries") } else { "an array".to_string() })}));
+                    }
+                }
+            }
+        }
         let mut pool = vec![];
         for s in &e.samples {
             match s {
